@@ -166,6 +166,11 @@ func genDL(purpose string) func(t *rapid.T) dlCase {
 		c.WinSize = rapid.IntRange(10, 15).Draw(t, "winsize")
 		c.WinMin = rapid.SampledFrom([]int64{1_000_000, 2_000_000, 5_000_000, 20_000_000}).Draw(t, "winmin")
 		c.WinMax = c.WinMin + rapid.SampledFrom([]int64{0, 0, 1_000_000, 15_000_000}).Draw(t, "winmaxd")
+		if rapid.IntRange(0, 7).Draw(t, "winmaxUnbounded") == 0 {
+			// "no upper bound on the window": the largest durations there are (the period is then 2 x min RTT, floored
+			// at the minimum window)
+			c.WinMax = rapid.SampledFrom([]int64{math.MaxInt64, math.MaxInt64 - 1, 1 << 62, int64(290 * 365 * 24 * time.Hour)}).Draw(t, "winmaxHuge")
+		}
 		c.Threshold = rapid.SampledFrom([]int64{1, 1, 1000, 100_000, 2_000_000, 0, -5}).Draw(t, "threshold") // <= 0: no RTT filter at all
 		dynCase := purpose == "c02" && rapid.IntRange(0, 4).Draw(t, "dynCase") == 0                          // C02: some cases remove / add partitions while tokens are out (totals only are judged then)
 		ev := rapid.Custom(func(t *rapid.T) dlEv {
